@@ -1268,6 +1268,20 @@ def run_depth_sweep(rt: Rt, spec: dict[str, Any]) -> None:
                     ctx.seen("depth_sweep_errors", f"{name}:{res.err}")
 
 
+def run_diagnostics(rt: Rt) -> None:
+    """Side observations that the property text does not cover (never a violation)."""
+    env = rt.env("std", {"p": "{% break %}"})
+    for name, src in [
+        ("break at the top level of a macro body called from a caller's loop",
+         "{% macro m %}{% break %}{% endmacro %}{% for x in (1..3) %}{{ x }}{% call m %}{% endfor %}"),
+        ("break at the top level of a rendered partial called from a caller's loop",
+         "{% for x in (1..3) %}{{ x }}{% render 'p' %}{% endfor %}"),
+    ]:
+        res = rt.run(env, src, {}, "sync")
+        rt.ctx.note(f"diagnostic (control flow, not scope): {name}: {src!r} -> "
+                    + (repr(res.out) if res.ok else res.err))
+
+
 # ======================================================================================
 # O6 : render ... for — iteration independence
 # ======================================================================================
@@ -1384,7 +1398,7 @@ KINDS: dict[str, Callable[[Rt, str, int, str], None]] = {
     "pairs": run_pair, "o4": run_o4, "frame": run_frame, "o6": run_o6, "gen": run_gen,
 }
 PER = {  # cases per shard (quick, thorough)
-    "pairs": (260, 2600), "o4": (300, 6000), "frame": (150, 2000), "o6": (200, 4000), "gen": (80, 1600),
+    "pairs": (260, 4000), "o4": (300, 6000), "frame": (150, 3000), "o6": (200, 4000), "gen": (80, 1600),
 }
 NSHARDS = {"pairs": 8, "o4": 2, "frame": 3, "o6": 1, "gen": 1}
 
@@ -1427,6 +1441,7 @@ def run_shard(spec: dict[str, Any], ctx: Ctx) -> None:
         if kind == "o3":
             run_o3(rt, spec)
             run_depth_sweep(rt, spec)
+            run_diagnostics(rt)
             return
         fn = KINDS[kind]
         seed = f"{spec['seed']}:{spec['i']}"
